@@ -371,8 +371,11 @@ class Eval:
                 self.conds.append((("arm", sc, hq.pat_key(a["pat"])), True))
                 npush = 1
                 if "guard" in a:
-                    self.conds.append((self.expr(a["guard"], ea, depth), True))
+                    g_ = self.expr(a["guard"], ea, depth)
+                    self.conds.append((g_, True))
                     npush = 2
+                    # the phi of a statement-level match names a guarded arm `<pattern> if ..`: what the guard is, is kept here
+                    PHI_GUARDS.setdefault((("match", sc), hq.pat_key(a["pat"]) + " if .."), set()).add(g_)
                 self.effect(a["body"], ea, depth)
                 for _ in range(npush):
                     self.conds.pop()
@@ -945,6 +948,9 @@ class Eval:
                     self._helper_stack.pop()
                     self._helper_depth -= 1
         return ("call", name, tuple(args))
+
+
+PHI_GUARDS = {}    # (("match", scrutinee), "<pattern> if ..") -> {guard term}: see Eval.effect
 
 
 def diverges(e, panics=True):
